@@ -1008,6 +1008,26 @@ func (c *FnCtx) runGhosts(st *State, site string, pos token.Pos) {
 		}
 		save := c.curPos
 		c.curPos = pos
+		if a.Hint {
+			// hints: pass 1 collects them as obligations (not assumed); pass 2 assumes the proved instances only
+			key := hintKey(c.fi.Key, lbl, st.path)
+			if c.hintPass == 1 {
+				// stated, then assumed for the following hints (a chain, as with asserts)
+				c.oblige(st, "hint", lbl, goal, props, a.Expr)
+				c.obls[len(c.obls)-1].HintKey = key
+				st.Assume(goal)
+			} else {
+				// pass 2: only the proved prefix of the chain is assumed
+				_, broken := st.spec["hint:broken"]
+				if c.provedHints[key] && !broken {
+					st.Assume(goal)
+				} else {
+					st.spec["hint:broken"] = Val{}
+				}
+			}
+			c.curPos = save
+			continue
+		}
 		c.oblige(st, "ghost", lbl, goal, props, a.Expr)
 		c.curPos = save
 		st.Assume(goal)
@@ -1141,4 +1161,8 @@ func exprString2(e ast.Expr) string {
 	var b strings.Builder
 	printer.Fprint(&b, token.NewFileSet(), e)
 	return b.String()
+}
+
+func hintKey(fn, label string, path []string) string {
+	return fn + "|" + label + "|" + strings.Join(path, ";")
 }
